@@ -373,7 +373,7 @@ class Run:
             if op in ("commit", "rollback", "close_reconnect"):
                 state["txn"] = False
                 handles.clear()
-            now = self._fc(conn) if op in ("exec", "nested", "close_reconnect", "commit", "rollback") else state["fc"]
+            now = self._fc(conn)      # (begin() reconnects too)
             if state["need_reconnect"] and op in ("exec", "nested", "close_reconnect"):
                 self.bump("reconnects_checked")
                 state["need_reconnect"] = False
